@@ -31,18 +31,19 @@ type liteWorld struct {
 }
 
 type liteDial struct {
-	Seq   int
-	Addr  string
-	By    string
+	Seq     int
+	Addr    string
+	By      string
 	Outcome string
 }
 
 type liteBackend struct {
-	Refuse bool
-	Hang   bool
-	Delay  time.Duration
-	Conns  []*liteBackendConn
-	OnConn func(bc *liteBackendConn) // actor body; default: read everything
+	Refuse          bool
+	Hang            bool
+	Delay           time.Duration
+	FailGateWriteAt int64 // the proxy's write that crosses this stream offset fails (0: never)
+	Conns           []*liteBackendConn
+	OnConn          func(bc *liteBackendConn) // actor body; default: read everything
 }
 
 type liteBackendConn struct {
@@ -117,6 +118,10 @@ func (w *liteWorld) dial(ctx context.Context, network, addr string) (net.Conn, e
 	}
 	gate, be := w.r.Pipe("gate>"+addr, "be:"+addr, simnet.Options{Seg: w.seg, AddrA: simnet.TCP("10.9.9.9", 31000+len(w.dials)), AddrB: &net.TCPAddr{IP: ip, Port: 25565}})
 	bc := &liteBackendConn{Addr: addr, conn: be}
+	if b.FailGateWriteAt > 0 {
+		w.r.Fault("backend_link_breaks_after_handshake")
+		gate.FailWriteAt(b.FailGateWriteAt)
+	}
 	b.Conns = append(b.Conns, bc)
 	fin("ok")
 	simrt.Go(func() {
@@ -144,14 +149,14 @@ func (bc *liteBackendConn) readAll() {
 
 // liteClient is a raw client.
 type liteClient struct {
-	w     *liteWorld
-	idx   int
-	conn  *simnet.Conn
-	IP    string
-	Port  int
-	Recv  []byte
-	EOF   bool
-	Done  bool
+	w    *liteWorld
+	idx  int
+	conn *simnet.Conn
+	IP   string
+	Port int
+	Recv []byte
+	EOF  bool
+	Done bool
 }
 
 func (w *liteWorld) connect(ip string) *liteClient {
